@@ -5,13 +5,15 @@ proc macro distinguishes, together with the `FieldSpec` text of each struct.
 
   kind    p plain | d duplicated | t take_last
   default n none  | y `default`  | p `default = "path"`
-  type    i i32   | o Option<i32> | s String | v Vec<i32>
+  type    i i32   | o Option<i32> | s String | v Vec<i32> | z Option<String> (value letter: how values are offered / printed)
           (for a duplicated field the type letter is the ELEMENT type: Vec<i32> / Vec<String> /
            Vec<Vec<i32>>; `o` is left out for duplicated fields)
   alias   none | `a<i>`
   token   none | `token = <id of f<i>>`   (token structs: every field, the macro panics otherwise)
+  auto    y | n   the macro auto-defaults the field when missing: SOME PATH SEGMENT OF THE TYPE AS SPELLED is
+                  `Option` (`auto_default` below applies the macro's syntactic rule to the spelling)
 
-The spec text of a struct (`f0:p:n:i:-:-/f1:…`, fields `name:kind:default:type:alias:token`) is
+The spec text of a struct (`f0:p:n:i:-:-:n/f1:…`, fields `name:kind:default:type:alias:token:auto`) is
 put on every case line (`derive F12~<spec> <pairs>`): the Lean driver builds its `FieldSpec` list
 from the line, the harness checks the line against this table, so the two sides cannot drift.
 
@@ -45,6 +47,20 @@ def path_fn(k, t):
     if k == "d":
         return {"i": "d_vec", "s": "d_vecs", "v": "d_vecv"}[t]
     return {"i": "d_i32", "o": "d_opt", "s": "d_str", "v": "d_vec"}[t]
+
+
+def auto_default(spelling):
+    """lib.rs:50-57 `can_default`: the type is a path and SOME segment of that path (not of its generic
+    arguments) is the identifier `Option`.  Decided from the spelling, never from the resolved type."""
+    head = spelling.strip()
+    if head.startswith("::"):
+        head = head[2:]
+    cut = head.find("<")
+    if cut >= 0:
+        head = head[:cut]
+    if not head or not all(c.isalnum() or c in "_:" for c in head):
+        return False  # not a path type
+    return "Option" in [seg.strip() for seg in head.split("::")]
 
 
 def field(i, combo, token, layout="canon"):
@@ -87,7 +103,8 @@ def field(i, combo, token, layout="canon"):
         if l:
             line += "    #[jomini(%s)]\n" % ", ".join(l)
     line += "    f%d: %s,\n" % (i, rust_type(k, t))
-    spec = "f%d:%s:%s:%s:%s:%s" % (i, k, d, t, ("a%d" % i) if a else "-", str(0x2d00 + F_BASE + i) if token else "-")
+    spec = "f%d:%s:%s:%s:%s:%s:%s" % (i, k, d, t, ("a%d" % i) if a else "-", str(0x2d00 + F_BASE + i) if token else "-",
+                                      "y" if auto_default(rust_type(k, t)) else "n")
     return line, spec, "format!(\"f%d={}\", %s(&self.f%d))" % (i, show_fn(k, t), i)
 
 
@@ -148,6 +165,20 @@ fn d_vecs() -> Vec<String> {
 fn d_vecv() -> Vec<Vec<i32>> {
     vec![vec![7]]
 }
+fn d_box() -> Box<i32> {
+    Box::new(777)
+}
+/// a type alias: resolves to `Option<T>` but is not SPELLED `Option`
+type Opt<T> = Option<T>;
+fn sh_oo(x: &Option<Option<i32>>) -> String {
+    x.flatten().map(|v| v.to_string()).unwrap_or("none".into())
+}
+fn sh_b(x: &Box<i32>) -> String {
+    x.to_string()
+}
+fn sh_os(x: &Option<String>) -> String {
+    x.as_ref().map(sh_s).unwrap_or("none".into())
+}
 fn sh_i(x: &i32) -> String {
     x.to_string()
 }
@@ -170,6 +201,145 @@ fn sh_vv(x: &Vec<Vec<i32>>) -> String {
 """)
 table = []
 arms = []
+
+# ---------------------------------------------------------------------------------------------
+# decisions the macro takes from SYNTAX (read off jomini_derive/src/lib.rs), each with >= 2 values:
+#   type spelling      `Option<T>` / `std::option::Option<T>` / `core::option::Option<T>` / `::std::option::Option<T>`
+#                      (auto-default: some path segment is `Option`), a type alias `Opt<T>` and `Box<i32>` (not
+#                      auto-defaulted), `Option<Option<i32>>`; `Vec<T>` / `std::vec::Vec<T>` / `::std::vec::Vec<T>` for
+#                      duplicated fields (element type = first generic argument of the LAST segment);
+#                      `String` / `std::string::String`; a type that arrives as `Type::Group` (macro_rules `$t:ty`)
+#   attribute spelling `default` / `default()` / `default = "path"`; two `alias` items (the first wins);
+#                      `token` in decimal / hex; an empty `#[jomini()]`; foreign attributes on the field
+#                      (doc comment, `#[allow]`, `#[serde(rename)]` with an additional `derive(Serialize)`)
+#   field identifier   a raw identifier `r#type`: the macro uses `ident.to_string()` = "r#type" as the key and
+#                      in error messages (serde's own derive strips the `r#`)
+#   struct header      a type parameter (the `Deserialize<'de>` bound is added) / a `where` clause (it is not)
+# (field order / position is a dimension of the F structs already.)
+# custom field: (attr lines, rust ident, spec name, rust type, kind, default, value letter, alias, token, show)
+def cf(attrs, ident, ty, kind="p", dflt="n", letter="i", alias=None, token=None, show=None, name=None, auto=None):
+    return dict(attrs=attrs, ident=ident, name=name or ident, ty=ty, kind=kind, dflt=dflt, letter=letter, alias=alias,
+                token=token, show=show, auto=auto)
+
+
+def tokid(i):
+    return 0x2d00 + F_BASE + i
+
+
+customs = []
+# S0..S4: the Option spellings, plain / take_last, missing => None
+for k, sp in enumerate(["Option<i32>", "std::option::Option<i32>", "core::option::Option<i32>", "::std::option::Option<i32>",
+                        "Option<Option<i32>>"]):
+    sh = "sh_oo" if "Option<Option" in sp else "sh_o"
+    customs.append(("S%d" % k, "", "", "", [
+        cf([], "f0", sp, letter="o", show=sh),
+        cf(["#[jomini(take_last)]"], "f1", sp, kind="t", letter="o", show=sh),
+        cf(['#[jomini(default = "d_opt", alias = "a2")]'], "f2", sp.replace("Option<Option<i32>>", "Option<i32>"), dflt="p", letter="o", alias="a2", show="sh_o"),
+        cf([], "f3", "i32", show="sh_i"),
+    ]))
+# S5: not auto-defaulted although the resolved type is / contains an Option
+customs.append(("S5", "", "", "", [
+    cf([], "f0", "Opt<i32>", letter="o", show="sh_o"),
+    cf(["#[jomini(default)]"], "f1", "Opt<i32>", dflt="y", letter="o", show="sh_o"),
+    cf([], "f2", "Box<i32>", show="sh_b"),
+    cf(["#[jomini(default)]"], "f3", "Box<i32>", dflt="y", show="sh_b"),
+]))
+customs.append(("S6", "", "", "", [
+    cf(["#[jomini(take_last)]"], "f0", "Opt<i32>", kind="t", letter="o", show="sh_o"),
+    cf(['#[jomini(default = "d_box")]'], "f1", "Box<i32>", dflt="p", show="sh_b"),
+    cf([], "f2", "Option<i32>", letter="o", show="sh_o"),
+]))
+# S7, S8: Vec / String spellings
+customs.append(("S7", "", "", "", [
+    cf(["#[jomini(duplicated)]"], "f0", "std::vec::Vec<i32>", kind="d", show="sh_v"),
+    cf(["#[jomini(duplicated, alias = \"a1\")]"], "f1", "::std::vec::Vec<std::string::String>", kind="d", letter="s", alias="a1", show="sh_vs"),
+    cf([], "f2", "std::string::String", letter="s", show="sh_s"),
+    cf(["#[jomini(default)]"], "f3", "::std::string::String", dflt="y", letter="s", show="sh_s"),
+]))
+customs.append(("S8", "", "", "", [
+    cf(["#[jomini(duplicated)]"], "f0", "Vec<std::vec::Vec<i32>>", kind="d", letter="v", show="sh_vv"),
+    cf(["#[jomini(take_last)]"], "f1", "std::vec::Vec<i32>", kind="t", letter="v", show="sh_v"),
+    cf([], "f2", "std::option::Option<std::string::String>", letter="z", show="sh_os"),
+]))
+# S9, S10: attribute spellings
+customs.append(("S9", "", "", "", [
+    cf(["#[jomini(default())]"], "f0", "i32", dflt="y", show="sh_i"),
+    cf(['#[jomini(alias = "a1", alias = "b1")]'], "f1", "i32", alias="a1", show="sh_i"),
+    cf(["#[jomini()]", "#[jomini(take_last)]", "#[jomini()]"], "f2", "i32", kind="t", show="sh_i"),
+    cf(['#[jomini(alias = "a3")]', '#[jomini(alias = "b3")]', "#[jomini(duplicated)]"], "f3", "Vec<i32>", kind="d", alias="a3", show="sh_v"),
+]))
+customs.append(("S10", ", serde::Serialize", "", "", [
+    cf(["/// a documented field", "#[allow(dead_code)]"], "f0", "i32", show="sh_i"),
+    cf(['#[serde(rename = "zz9")]', "#[jomini(take_last)]"], "f1", "i32", kind="t", show="sh_i"),
+    cf(["#[jomini(duplicated)]", '#[serde(default, rename = "yy9")]', "/// docs after"], "f2", "Vec<i32>", kind="d", show="sh_v"),
+    cf(['#[serde(skip_serializing_if = "Option::is_none")]'], "f3", "Option<i32>", letter="o", show="sh_o"),
+]))
+# S11, S12: token in decimal / hex
+customs.append(("S11", "", "", "", [
+    cf(["#[jomini(token = %d)]" % tokid(0)], "f0", "i32", token=tokid(0), show="sh_i"),
+    cf(["#[jomini(token = 0x%04X, duplicated)]" % tokid(1)], "f1", "Vec<i32>", kind="d", token=tokid(1), show="sh_v"),
+    cf(["#[jomini(take_last, token = 0x%x)]" % tokid(2)], "f2", "core::option::Option<i32>", kind="t", letter="o", token=tokid(2), show="sh_o"),
+]))
+# S13, S14: raw identifier
+customs.append(("S13", "", "", "", [
+    cf([], "r#type", "Option<i32>", letter="o", show="sh_o", name="r#type"),
+    cf(['#[jomini(alias = "a1")]'], "r#match", "i32", alias="a1", show="sh_i", name="r#match"),
+    cf([], "f2", "i32", show="sh_i"),
+]))
+customs.append(("S14", "", "", "", [
+    cf([], "f0", "i32", show="sh_i"),
+    cf([], "r#type", "i32", show="sh_i", name="r#type"),
+]))
+# G0, G1: generics
+customs.append(("G0", "", "<T>", "", [
+    cf([], "f0", "T", show="sh_i"),
+    cf(["#[jomini(duplicated)]"], "f1", "Vec<T>", kind="d", show="sh_v"),
+    cf([], "f2", "Option<T>", letter="o", show="sh_o"),
+    # (`default` on a bare `T` field needs `T: Default`, which only a `where` clause can supply: G1)
+    cf(["#[jomini(take_last)]"], "f3", "T", kind="t", show="sh_i"),
+]))
+customs.append(("G1", "", "<T>", "where\n    T: serde::de::DeserializeOwned + Default,\n", [
+    cf(["#[jomini(default)]"], "f0", "T", dflt="y", show="sh_i"),
+    cf(["#[jomini(take_last)]"], "f1", "std::option::Option<T>", kind="t", letter="o", show="sh_o"),
+    cf(["#[jomini(duplicated, alias = \"a2\")]"], "f2", "Vec<T>", kind="d", alias="a2", show="sh_v"),
+]))
+
+macro_structs = [
+    # (name, macro args, fields); the field types arrive as `Type::Group`
+    ("M0", ["Option<i32>", "Vec<i32>", "std::option::Option<i32>"], [
+        cf([], "f0", "$t0", letter="o", show="sh_o", auto=True),
+        cf(["#[jomini(duplicated)]"], "f1", "$t1", kind="d", show="sh_v", auto=False),
+        cf(["#[jomini(take_last)]"], "f2", "$t2", kind="t", letter="o", show="sh_o", auto=True),
+        cf([], "f3", "i32", show="sh_i"),
+    ]),
+]
+
+
+def emit_custom(name, derive_extra, generics, where, fields, as_macro_args=None):
+    body = []
+    specs, shows = [], []
+    for f in fields:
+        for a in f["attrs"]:
+            body.append("    %s\n" % a)
+        body.append("    %s: %s,\n" % (f["ident"], f["ty"]))
+        auto = f["auto"] if f["auto"] is not None else auto_default(f["ty"])
+        specs.append("%s:%s:%s:%s:%s:%s:%s" % (f["name"], f["kind"], f["dflt"], f["letter"], f["alias"] or "-",
+                                               str(f["token"]) if f["token"] else "-", "y" if auto else "n"))
+        shows.append("format!(\"%s={}\", %s(&self.%s))" % (f["name"], f["show"], f["ident"]))
+    decl = "#[derive(JominiDeserialize, Debug, PartialEq%s)]\npub struct %s%s %s{\n%s}\n" % (
+        derive_extra, name, generics, where, "".join(body))
+    inst = name + ("<i32>" if generics else "")
+    if as_macro_args is not None:
+        params = ", ".join("$t%d:ty" % i for i in range(len(as_macro_args)))
+        out.append("macro_rules! mk_%s {\n    (%s) => {\n%s    };\n}\nmk_%s!(%s);\n" % (
+            name.lower(), params, "".join("        " + l + "\n" for l in decl.rstrip("\n").split("\n")), name.lower(), ", ".join(as_macro_args)))
+    else:
+        out.append(decl)
+    out.append("impl Show for %s {\n    fn show(&self) -> String {\n        [%s].join(\";\")\n    }\n}\n\n" % (inst, ", ".join(shows)))
+    table.append('    ("%s", "%s"),\n' % (name, "/".join(specs)))
+    arms.append('        "%s" => (run_text::<%s>(text, case, obs), run_bin::<%s>(bin, case, obs)),\n' % (name, inst, inst))
+
+
 for name, cs, token, layout in structs:
     out.append("#[derive(JominiDeserialize, Debug, PartialEq)]\npub struct %s {\n" % name)
     specs, shows = [], []
@@ -182,7 +352,11 @@ for name, cs, token, layout in structs:
     out.append("impl Show for %s {\n    fn show(&self) -> String {\n        [%s].join(\";\")\n    }\n}\n\n" % (name, ", ".join(shows)))
     table.append('    ("%s", "%s"),\n' % (name, "/".join(specs)))
     arms.append('        "%s" => (run_text::<%s>(text, case, obs), run_bin::<%s>(bin, case, obs)),\n' % (name, name, name))
-out.append("/// (struct id, FieldSpec text `name:kind:default:type:alias:token/...`)\npub const FAMILY: &[(&str, &str)] = &[\n")
+for name, derive_extra, generics, where, fields in customs:
+    emit_custom(name, derive_extra, generics, where, fields)
+for name, margs, fields in macro_structs:
+    emit_custom(name, "", "", "", fields, as_macro_args=margs)
+out.append("/// (struct id, FieldSpec text `name:kind:default:type:alias:token:autodefault/...`)\npub const FAMILY: &[(&str, &str)] = &[\n")
 out.extend(table)
 out.append("];\n\n")
 out.append("/// index of `f0` in `NAMES` the token ids above were computed with\npub const F_BASE: usize = %d;\n\n" % F_BASE)
@@ -190,4 +364,4 @@ out.append("pub fn run(id: &str, text: &[u8], bin: &[u8], case: &str, obs: &mut 
 out.extend(arms)
 out.append("        _ => return None,\n    })\n}\n")
 open(OUT, "w").write("".join(out))
-print("wrote", OUT, len(structs), "structs")
+print("wrote", OUT, len(structs) + len(customs) + len(macro_structs), "structs")
